@@ -8,6 +8,8 @@ REGISTRY = {
     'C02': ('verif.p_mc', 'run_c02'),
     'C03': ('verif.p_mc', 'run_c03'),
     'C12': ('verif.p_graph', 'run_c12'),
+    'C14': ('verif.p_kripke', 'run_c14'),
+    'C15': ('verif.p_mc', 'run_c15'),
     'C13': ('verif.p_graph', 'run_c13'),
 }
 
